@@ -141,6 +141,97 @@ def judge(chk, rows, res, stats):
                 chk.note_drift({"c02_violation_seen": s["id"], "prog": s["prog"], "cfg": s["cfg"], "concrete": r.get("concrete")})
 
 
+BUILDER_SHAPES = [(135, 80, 2, "std"), (20, 12, 2, "narrow"), (60, 25, 5, "mid")]
+
+
+def builder_block(chk, thorough):
+    """spec/Builder.tla: the builder front end (constants, arithmetic shortcuts and cache, slot allocation,
+    constant generators at build) model-checked for every short call sequence, and the real CircuitBuilder
+    validated against it call by call (spec/BuilderTrace.tla, Goldilocks on byte limbs)."""
+    cfg = "MCBuilder_4" if thorough else "MCBuilder"
+    rb = common.tlc("MCBuilder", cfg=cfg, workers=6, timeout=3000, heap="8g", tag="mcbuilder")
+    if not rb.ok:
+        raise ToolError("spec Builder violates %s" % rb.violated)
+    chk.add_tlc("Builder: every sequence of <= %d builder calls followed by build, F_3" % (4 if thorough else 3), rb)
+    for can in ("slot_full_late", "identity_wrong_operand", "cache_ignores_consts", "one_const_cell_short"):
+        rc = common.tlc("MCBuilder", cfg="MCBuilder_canary_" + can, workers=2, timeout=600, tag="mcbcan" + can)
+        chk.canary("Builder mutant %s violates Inv (TLC counterexample)" % can, rc.violated == "Inv")
+    runs, ln = (120, 120) if thorough else (24, 70)
+    totals = {}
+    first_trace = None
+    for nw, nr, nc, tag in BUILDER_SHAPES:
+        tp = os.path.join(common.OUT, "c01_builder_%s.ndjson" % tag)
+        out = common.vh(["builder", "--out", tp, "--nw", str(nw), "--nr", str(nr), "--nc", str(nc), "--runs", str(runs),
+                         "--len", str(ln)], binname=BIN, env={"RAYON_NUM_THREADS": "3"}, timeout=3000)
+        summ = out[-1]
+        chk.evaluations += summ["sem_checked"]
+        for x in out:
+            if "builder_build_panic" in x:
+                chk.violation("C01/builder/build-panic/%s" % tag,
+                              "build() panicked on a circuit assembled from add_virtual_target / constant / arithmetic / random_access / add_gate: %s" % x["builder_build_panic"][:300],
+                              {"builder_shape": [nw, nr, nc], "run": x["run"], "trace": tp, "expected": "build succeeds"})
+        for b in summ["sem_bad"][:20]:
+            kind = "arith" if "arith" in b else "ra" if "ra" in b else "witness" if ("witness_error" in b or "witness_panic" in b) else "unsatisfied"
+            chk.violation("C01/builder/meaning/%s/%s" % (tag, kind),
+                          "a builder call's result does not have the value the call denotes under the library's own witness generation, or the generated assignment violates the circuit: %s" % json.dumps(b)[:400],
+                          {"builder_shape": [nw, nr, nc], "observed": b, "trace": tp,
+                           "expected": "value(result) = c0*x*y + c1*z (arithmetic) / list[index] (random_access); all gates and copies satisfied"})
+        rt = common.tlc("BuilderTrace", cfg="BuilderTrace", workers=1, timeout=2400, env={"TRACE": tp}, tag="btrace" + tag)
+        info = common.tagged(rt.prints, "BTRACE")
+        if not info:
+            raise ToolError("BuilderTrace printed no result: " + rt.raw[-600:])
+        info = info[0]
+        for k, v in info.items():
+            totals[k] = totals.get(k, 0) + v
+        if info["distinct"] == info["n"]:
+            chk.traces += summ["runs"]
+        else:
+            with open(tp) as f:
+                lines = f.read().splitlines()
+            bad = json.loads(lines[info["distinct"]])          # 0-based index of the first unmatched line
+            # shape drift: the call returned / the build placed something else than the front-end model computes;
+            # the property-level judgement is the meaning check above
+            chk.note_drift({"builder_trace_rejected": tag, "line": info["distinct"] + 1,
+                            "event": {k: bad[k] for k in bad if k != "rows"}, "trace": tp})
+        if first_trace is None:
+            first_trace = tp
+    chk.extra["builder"] = {"shapes": [list(x[:3]) for x in BUILDER_SHAPES], "runs_per_shape": runs, "events": totals.get("n", 0),
+                            "paths_of_arithmetic": {k: totals.get(k, 0) for k in ("fold", "addend", "m0", "m1", "cache", "slot")},
+                            "random_access_slots": totals.get("ra", 0), "builds": totals.get("builds", 0),
+                            "builds_using_random_access_constant_cells": totals.get("ra_cells_used", 0)}
+    for k in ("fold", "addend", "m0", "m1", "cache", "slot", "ra", "builds", "ra_cells_used"):
+        if totals.get(k, 0) == 0 and not chk.drift:
+            raise ToolError("vacuity: builder traces never met %s" % k)
+    # binding canaries: one corrupted recorded field must be rejected
+    with open(first_trace) as f:
+        lines = [json.loads(l) for l in f.read().splitlines()]
+    def rejected(mod, name):
+        cp = os.path.join(common.OUT, "c01_builder_canary_%s.ndjson" % name)
+        common.write_ndjson(cp, mod)
+        r = common.tlc("BuilderTrace", cfg="BuilderTrace", workers=1, timeout=2400, env={"TRACE": cp}, tag="btcan" + name)
+        i = common.tagged(r.prints, "BTRACE")
+        return bool(i) and i[0]["distinct"] < i[0]["n"]
+    k = next(i for i, e in enumerate(lines) if e["ev"] == "arith" and e["res"][0] == "w" and i > len(lines) // 3)
+    m1 = [dict(e) for e in lines]
+    m1[k] = dict(m1[k], res=["w", m1[k]["res"][1], m1[k]["res"][2] + 4])
+    chk.canary("builder trace with one result wire moved to the next slot is rejected", rejected(m1, "res"))
+    kb = None
+    for i, e in enumerate(lines):
+        if e["ev"] == "build":
+            for ri, row in enumerate(e["rows"]):
+                if row["kind"] != "arith" and len(row["consts"]) >= 2 and row["consts"][0] != row["consts"][1]:
+                    kb = (i, ri)
+                    break
+        if kb:
+            break
+    if kb is None:
+        raise ToolError("vacuity: no build row with two distinct generator constants in the first builder trace")
+    m2 = [json.loads(json.dumps(e)) for e in lines]
+    c = m2[kb[0]]["rows"][kb[1]]["consts"]
+    c[0], c[1] = c[1], c[0]
+    chk.canary("builder trace with two constants swapped between generator cells is rejected", rejected(m2, "cells"))
+
+
 def run(chk, tier):
     thorough = tier == "thorough"
     rnd = random.Random(common.seed())
@@ -195,6 +286,8 @@ def run(chk, tier):
     for can in ("requeue", "conflict"):
         rc = common.tlc("WitnessGen", cfg="WitnessGen_canary_" + can, workers=2, timeout=600, tag="wgcan" + can)
         chk.canary("WitnessGen mutant %s violates OutcomeAsExpected (TLC counterexample)" % can, rc.violated is not None)
+    # ---- builder front end: model and trace validation of the real CircuitBuilder
+    builder_block(chk, thorough)
     # ---- B1: interpreter == spec on F_17
     allp = p1 + p2 + psim
     ip = os.path.join(common.OUT, "c01_interp.ndjson")
